@@ -5,22 +5,28 @@ import os
 import numpy as np
 import torch
 
-from harness import coqio, compiled, nets, subproc
+from harness import coqio, compiled, cparse, nets, subproc
 from harness.common import Check
 from harness.procworker import model_by_id, probe
-from translate import libio as t_libio, wrapper as t_wr, gatecode as t_gc
+from translate import libio as t_libio, wrapper as t_wr, gatecode as t_gc, storage as t_storage
 
 THEOREMS = ["C16_disciplines", "C16_invariant", "C16_no_crash", "C16_inplace_refuted", "C16_bypath_refuted", "C16_reentrant_structure",
-            "C16_rebuilds_empty_refuted", "C16_compile_requires_model"]
+            "C16_rebuilds_empty_refuted", "C16_compile_requires_model", "C16_buffers_private", "C16_threads_sequential",
+            "C16_threads_complete", "C16_stale_memory", "C16_shared_static_refuted", "C16_private_example", "C16_unwritten_read_refuted"]
 TRUSTED = [
     "Coq 8.16.1 kernel/coqc; theorems closed under the global context",
     "partial: the process model Model/Proc.v (files as inodes, in-place overwrite modifies mapped pages, dlopen caches by path name, a "
     "deleted but mapped file stays alive) is hand-written from the documented behaviour of the loader and file system; it is tied to the "
     "implementation by executing every sampled history in a fresh interpreter and comparing the outcome of each step with the model "
     "evaluated in the kernel; the loader, mmap and rename atomicity themselves are trusted",
-    "partial: thread schedules are exercised (2..16 Python threads, ctypes releases the GIL), not proved; the step 'no shared mutable "
-    "storage => concurrent calls behave sequentially' is trusted; absence of static storage other than thread-local (`static __thread`) buffers is checked on the emitted text",
-    "translators translate/libio.py (which library calls compile(save) and load make) and translate/wrapper.py",
+    "partial: concurrent calls are proved for EVERY schedule in the interleaving model Model/Threads.v (one C statement per step, the "
+    "declared buffers private per thread as read from BUFFER_STORAGE and from every parsed declaration, `out` and the buffers holding "
+    "arbitrary stale contents); because no cell is shared the granularity of the interleaving is immaterial, but that the hardware and "
+    "the C implementation give thread-local objects and malloc'd arrays exactly these semantics is trusted; real threads (2..16 Python "
+    "threads, ctypes releases the GIL) are exercised, and Model/Threads.run_schedule is evaluated in the kernel on parsed programs under "
+    "random schedules and compared with the real library",
+    "translators translate/libio.py (which library calls compile(save) and load make), translate/wrapper.py and translate/storage.py "
+    "(BUFFER_STORAGE and the form of every array declaration of the generator)",
 ]
 
 
@@ -90,6 +96,118 @@ def histories(ck):
     return out
 
 
+def _interleave(rng, turns):
+    """A random schedule containing thread j exactly turns[j] times."""
+    left = list(turns)
+    sched = []
+    while any(left):
+        j = rng.choice([t for t, n in enumerate(left) if n])
+        burst = rng.choice([1, 1, 1, 2, 3, 7])
+        for _ in range(min(burst, left[j])):
+            sched.append(j)
+        left[j] -= min(burst, left[j])
+    return sched
+
+
+def schedules_vs_impl(ck):
+    """Tie of Model/Threads to the implementation.  (1) Every array declared in the emitted logic_net of the models used here has
+    the storage class the translator read from BUFFER_STORAGE, and no other static or file-scope object exists.  (2) Parsed
+    programs of a dense and a convolutional model are run in the kernel by Model/Threads.run_scheduleZ under random schedules
+    (three threads, calls into both libraries, stale garbage in every array) with the discipline read from the source; the
+    results must be those of the real library called alone.  With shared storage the same evaluation yields a failing schedule."""
+    import re
+    rng = ck.rng
+    try:
+        declared = re.search(r"Definition buffer_storage : storage := (\w+)\.", t_storage.gen_storage()).group(1)
+    except Exception as e:
+        declared = None
+    scen = [(8, "dense", "conv2d"), (64, "dense", "conv3d")] if ck.tier == "quick" else \
+        [(8, "dense", "conv2d"), (16, "conv2d-random", "dense"), (32, "dense-unique", "conv3d"), (64, "dense", "conv3d"), (64, "conv2d", "conv2d-random")]
+    txt = ("From Coq Require Import ZArith List Bool Arith. Import ListNotations.\n"
+           "From TLX Require Import Model.Bits Model.CLang Model.Threads Gen.Storage.\n"
+           "Definition garb (v : Z) : @mem Z := fun _ _ => Some v.\n")
+    plan = []
+    for si, (W, ka, kb) in enumerate(scen):
+        progs, libs = [], []
+        for li, kind in enumerate((ka, kb)):
+            model = model_by_id(li, kind)
+            net = compiled.build(model, W)
+            text = net.get_c_code()
+            case = {"kind": "storage-scan", "model": kind, "W": W}
+            ck.case(case, kind="static-scan")
+            try:
+                p = cparse.parse_unit(text, W)
+            except cparse.ParseError as e:
+                ck.broke("correspondence", "parse emitted C", f"{kind}: {e}")
+                return
+            p["sizes"][0], p["sizes"][1] = int(np.prod(net.input_shape)), int(net._get_output_size())
+            wrong = sorted(set(st for st in p["storages"] if st != declared))
+            toplevel = "\n".join(l for l in text.splitlines() if not l.startswith(("\t", " ", "#", "}", "void")) and l.strip())
+            if wrong or re.search(r"^\w[\w \*]*\w+\s*(\[[^\]]*\])?\s*(=[^;]*)?;\s*$", toplevel, flags=re.M) \
+                    or len(re.findall(r"\bstatic\b", text)) != sum(1 for st in p["storages"] if st != "Automatic"):
+                ck.disagree("the emitted translation unit declares storage other than what BUFFER_STORAGE says (shared by all calls, or on the stack)",
+                            dict(case, declared=declared, emitted=sorted(set(p["storages"]))), signature={"what": "static"})
+            progs.append(p)
+            so = os.path.join(ck.scratch, f"sched_{si}_{li}.so")
+            try:
+                libs.append(compiled.compile_text(text, so, opt=1))
+            except Exception as e:
+                ck.broke("correspondence", "standalone compile", repr(e))
+                return
+        def inp(li):
+            return [cparse.wrapW(rng.getrandbits(W), W) for _ in range(progs[li]["sizes"][0])]
+        threads = [[(0, inp(0)), (0, inp(0))], [(0, inp(0)), (1, inp(1))], [(1, inp(1)), (1, inp(1)), (0, inp(0))]]
+        turns = [sum(2 + len(progs[l]["body"]) for l, _ in calls) for calls in threads]
+        scheds = [_interleave(rng, turns) for _ in range(2 if ck.tier == "quick" else 6)]
+        scheds.append([j for j in range(3) for _ in range(turns[j])])             # sequential
+        scheds.append([j for _ in range(max(turns)) for j in range(3)])           # round robin
+        txt += "".join(f"Definition p{si}_{li} : prog := {cparse.prog_coq(p)}.\n" for li, p in enumerate(progs))
+        inits = "; ".join("(" + "[" + "; ".join(f"({l}%nat, {coqio.zlist(x)}%Z)" for l, x in calls) + f"], garb ({85 + t})%Z, fun _ : nat => garb ({-3 - t})%Z)"
+                          for t, calls in enumerate(threads))
+        txt += (f"Definition w{si} : @world Z := {{| w_threads := map (fun x => fresh_thread (fst (fst x)) (snd (fst x)) (snd x)) [{inits}];"
+                f" w_shared := fun _ => garb 7%Z |}}.\n")
+        for sched in scheds:
+            txt += (f"Eval vm_compute in let w := run_scheduleZ {W} (negb (private_storage buffer_storage)) [p{si}_0; p{si}_1] w{si} {coqio.natlist(sched)} in "
+                    f"(map (@t_results Z) (w_threads w), map (@t_stuck Z) (w_threads w), map (@finished Z) (w_threads w)).\n")
+        alone = [[compiled.call_logic_net(libs[l], W, x, progs[l]["sizes"][1]) for l, x in calls] for calls in threads]
+        plan.append((W, (ka, kb), threads, scheds, alone))
+    if declared not in ("ThreadLocal", "Automatic") or any(st == "SharedStatic" for p in progs for st in p["storages"]):
+        # search for a failing input on the real code: networks that stay in logic_net long enough for calls to overlap
+        sjobs = [{"kind_of_job": "threads", "models": [0, 1], "W": 64, "threads": t, "mix": mix, "rounds": 150, "kind": "dense-big"}
+                 for t in (8, 16) for mix in (False, True)]
+        for job, res in zip(sjobs, subproc.run_jobs(ck.scratch, sjobs, workers=2, timeout=900)):
+            case = {"threads": job["threads"], "mix_handles": job["mix"], "W": 64, "rounds": job["rounds"], "model": "dense 32 -> 6000 -> 6000 -> 64"}
+            ck.case(case, nontrivial=True, kind="threads")
+            if not res["done"] or not res["steps"]:
+                ck.disagree("concurrent calls killed the process", dict(case, stderr=res["stderr"][-200:]), signature={"what": "threads-crash"})
+            elif res["steps"][0]["wrong"]:
+                ck.disagree("concurrent calls return results that differ from the sequential ones", dict(case, wrong=res["steps"][0]["wrong"], first=res["steps"][0]["first"]),
+                            signature={"what": "threads-wrong", "same_handle": not job["mix"]})
+    rc, out, err = ck.coq_eval("c16sched", txt, timeout=1200)
+    if rc != 0:
+        ck.broke("correspondence", "kernel evaluation of Model/Threads.run_schedule", err[-600:])
+        return
+    vals = coqio.parse_evals(out)
+    vi = 0
+    for W, kinds, threads, scheds, alone in plan:
+        for sched in scheds:
+            mv = vals[vi]
+            vi += 1
+            case = {"kind": "schedule", "W": W, "libraries": list(kinds), "threads": [[[l, x] for l, x in calls] for calls in threads],
+                    "schedule": sched, "storage": declared}
+            ck.case(case, nontrivial=len(set(sched[:40])) > 1, kind="schedule")
+            ck.count("scheduled_steps", len(sched))
+            res, stuck, fin = mv
+            res = [[list(r) for r in t] for t in res]
+            if res != alone or any(stuck) or not all(fin):
+                if declared in ("ThreadLocal", "Automatic"):
+                    ck.broke("correspondence", "Model/Threads.run_schedule vs the library called alone",
+                             f"W={W} {kinds}: model {res} stuck {stuck} finished {fin}; library {alone}")
+                else:
+                    ck.disagree("with the emitted storage class the interleaving model has a schedule whose results differ from the calls made alone",
+                                dict(case, model_results=res, alone=alone), signature={"what": "static", "kind": "schedule"})
+
+
 def run(ck: Check):
     ck.trusted = TRUSTED
     ck.rule = ("histories over {compile(model, save to path p or not), load(p), call(handle), compile() again on an existing instance} with 2 models, 2 paths and word sizes 8 / 64: a "
@@ -101,6 +219,7 @@ def run(ck: Check):
     ck.translate("LibIO", t_libio.gen_libio)
     ck.translate("WrapperParams", t_wr.gen_wrapper_params)
     ck.translate("GateCode", t_gc.gen_gatecode)
+    ck.translate("Storage", t_storage.gen_storage)
     ck.prove("Props/C16", THEOREMS)
     rng = ck.rng
     hs = histories(ck)
@@ -226,16 +345,7 @@ def run(ck: Check):
         if st["errors"]:
             ck.disagree("concurrent compile(save_lib_path=p) to one path failed although each compilation is valid",
                         dict(case, errors=st["errors"]), signature={"what": "concurrent-save", "kind": "error"})
-    # no storage shared between calls in the emitted text
-    net = compiled.build(model_by_id(0), 32)
-    text = net.get_c_code()
-    ck.case({"kind": "static-scan"}, kind="static-scan")
-    import re
-    # `static __thread` buffers are per thread (F27) and therefore not shared by concurrent calls; any other static is
-    if re.search(r"\bstatic\b(?! __thread\b)", text) or re.search(r"^\w[\w \*]*\w+\s*(\[[^\]]*\])?\s*(=[^;]*)?;\s*$", "\n".join(
-            l for l in text.splitlines() if not l.startswith(("\t", " ", "#", "}", "void")) and l.strip()), flags=re.M):
-        ck.disagree("the emitted translation unit has static or file-scope storage shared by all calls", {"model": 0},
-                    signature={"what": "static"})
+    schedules_vs_impl(ck)
     return ck.finish()
 
 
